@@ -136,13 +136,20 @@ def run(ctx, rep):
                          [('write', M, 2)], [('touch', (0, 'a.yaml'))]):
                 directed.append([('write', M, c), ('load',), ('delete', M), ('load',)] + then)
                 directed.append([('write', M, c), ('write', (0, 'a.yaml'), 0), ('load',), ('delete', M), ('load',)] + then + [('load',), ('force',)])
+        # the main file flaps: gone, back with other content, gone again (seeded change C10-A7: a "missing" marker that is not
+        # cleared when the file reappears)
+        for c1, c2 in ((1, 2), (2, 1), (0, 1), (1, 6), (6, 0)):
+            flap = [('write', M, c1), ('load',), ('delete', M), ('load',), ('write', M, c2), ('load',), ('delete', M), ('load',)]
+            directed.append(flap)
+            directed.append(flap + [('load',), ('write', M, c1), ('load',), ('delete', M)])
+            directed.append([('write', (0, 'a.yaml'), 0)] + flap)
         hists = directed + hists
         rnd = []
         big = ops_alphabet(4, len(CONTENTS)) + [('force',), ('register',)]
         for _ in range(ctx.n(120, 1500)):
             rnd.append([ctx.rng.choice(big) for _ in range(ctx.rng.randint(4, 40))])
         rep.rules.append('operation histories over {write x3 contents, touch, delete} x {main file, policy.d/a.yaml, policy.d/z.yaml, '
-                         'extra.d/b.yaml} + load: %d of the %d histories of length<=%d (all of length<=2, 64 directed ones with several '
+                         'extra.d/b.yaml} + load: %d of the %d histories of length<=%d (all of length<=2, directed ones with several '
                          'files in one directory); %d random histories of 4..40 steps over 4 '
                          'files, 6 contents, forced loads; x start with/without a main file (and with a directory override) x plain/'
                          'deprecated registered defaults; after every load the model is compared, at the end the long-lived '
